@@ -143,10 +143,30 @@ func c06(c *Ctx) {
 		return
 	}
 	// ---- literals
+	litMoved := false
 	for _, fn := range []*ssa.Function{pz, gp} {
 		fname := core.FuncName(fn)
 		recv := fn.Params[0]
 		lits := packetLiterals(fn)
+		if len(lits) == 0 {
+			// the packets are built in a helper function (the loop was moved out of the method): the value
+			// patterns below are tied to the method's own SSA and are not decided for that shape
+			movedTo := ""
+			for _, b := range fn.Blocks {
+				for _, in := range b.Instrs {
+					if call, ok := in.(*ssa.Call); ok {
+						if cal := call.Call.StaticCallee(); cal != nil && core.InModule(cal) && len(packetLiterals(cal)) > 0 {
+							movedTo = core.FuncName(cal)
+						}
+					}
+				}
+			}
+			if movedTo != "" {
+				r.Infof("STRUCT.lit %s: the packet literal is built in %s; the literal/marker/payload patterns are not decided for this shape", fname, movedTo)
+				litMoved = true
+				continue
+			}
+		}
 		add("STRUCT.lit", fname, "builds exactly one packet literal per loop iteration", p.Position(fn.Pos()), len(lits) == 1 && inAnyLoop(lits[0].Block()), fmt.Sprintf("%d packet literals", len(lits)))
 		for _, lit := range lits {
 			f := litFields(lit)
@@ -422,7 +442,9 @@ func c06(c *Ctx) {
 			"SetExtension adds up to 8 header bytes to the last packet after the payloader was given MTU-12: the packet can exceed the MTU")
 		n++
 	}
-	r.Floor("packetizer rule instances", n, 18)
+	if !litMoved {
+		r.Floor("packetizer rule instances", n, 18)
+	}
 	// sequencer transition (shared with C07)
 	seqIface := p.NamedType("rtp", "Sequencer")
 	if seqIface != nil {
